@@ -8,6 +8,9 @@ Static clauses:
              compile() that returns Ok, helpers inlined, by a value that does not come from the field itself: each round of the
              resolve loop then sizes against the transaction being resolved.  Keyed apart from S-STALE, so the listed
              first-round leak does not hide a body that is never replaced
+  S-WASHOUT  while such a kept body exists, the earlier transaction's influence is removed only by the resolve loop re-evaluating
+             until a pass reproduces its predecessor: every success exit of the round loop is the confirmed one (the give-up
+             exit on the round bound is C05's listed finding and is not repeated)
   S-NOSTATE  resolve_tx / eval_pass / inputs::resolve keep no state across calls: no statics and no interior mutability in the
              resolver and compiler crates' resolve closure
 Not decided: that the fix-point reached is independent of the starting body when no reset exists (value-level).
